@@ -28,10 +28,28 @@ theorem step_hinv (c : Conn) (ev : Event) (h : HInv c) : HInv (step c ev).1 :=
 theorem run_hinv {c : Conn} (h : HInv c) (evs : List Event) : HInv (run c evs).1 :=
   run_inv (I := HInv) step_hinv evs c h
 
-/-- the output contains a HEADERS frame -/
+/-- the output contains a frame of a header block: HEADERS (whole or cut) or CONTINUATION -/
 def writesHeaders : StepOut → Bool
   | .frames fs => fs.any OutFrame.isHeaders
   | _ => false
+
+/-- the output contains a frame that opens a stream: a HEADERS frame, with END_HEADERS (`headers`) or without (`hfrag`) -/
+def opensStream : StepOut → Bool
+  | .frames fs => fs.any OutFrame.opens
+  | _ => false
+
+theorem opensStream_writes {o : StepOut} (h : opensStream o = true) : writesHeaders o = true := by
+  cases o with
+  | frames fs =>
+    simp only [opensStream, writesHeaders, List.any_eq_true] at h ⊢
+    obtain ⟨f, hf, ho⟩ := h
+    exact ⟨f, hf, OutFrame.opens_isHeaders ho⟩
+  | _ => cases h
+
+theorem not_writes_not_opens {o : StepOut} (h : writesHeaders o = false) : opensStream o = false := by
+  cases ho : opensStream o with
+  | false => rfl
+  | true => rw [opensStream_writes ho] at h; cases h
 
 theorem canOpen_goAway {c : Conn} (h : canOpenStream c = true) : c.goAway = false := by
   simp only [canOpenStream, Bool.and_eq_true, Bool.not_eq_true'] at h
